@@ -1097,6 +1097,51 @@ func (w *c19W) failDiff(it *c19Item, diff, prefix string, f mc.Failure) {
 	w.fail(it, f)
 }
 
+// ------------------------------------------------------------------ (k) hostile member names, (i) parsed numbers changed in place
+
+// c19HostileKeys: every hostile text of the value alphabet, and more control / private-use /
+// tag characters, as a member NAME (alone, beside another member, one level down).
+func c19HostileKeys() []*c19N {
+	var keys []string
+	for _, l := range c19LeavesFull {
+		if l.K == 't' {
+			keys = append(keys, l.S)
+		}
+	}
+	for _, ch := range []rune{0x01, 0x07, 0x08, 0x0B, 0x0C, 0x0E, 0x1B, 0x80, 0x9F, 0xAD, 0xFFFD, 0xFFFE, 0xE000, 0xE0001, 0x10FFFD, 0x10FFFF} {
+		keys = append(keys, string(ch), "a"+string(ch)+"b")
+	}
+	var out []*c19N
+	for _, k := range keys {
+		out = append(out, &c19N{K: 'd', Keys: []string{k}, Items: []*c19N{c19Num(1)}})
+		if k != "z" {
+			out = append(out, &c19N{K: 'd', Keys: []string{"z", k}, Items: []*c19N{c19Num(1), c19Text(k)}})
+		}
+		out = append(out, &c19N{K: 'd', Keys: []string{"o"}, Items: []*c19N{{K: 'l', Items: []*c19N{{K: 'd', Keys: []string{k}, Items: []*c19N{{K: 'z'}}}}}}})
+	}
+	return out
+}
+
+// (i): a number of a parsed document is changed in place WITHOUT being bound first
+// (以（解析JSON：T）#“n”（自增：5）); parsing the same text again still gives the document.
+func (w *c19W) checkParsedInPlace(k int) {
+	c := w.c
+	doc := fmt.Sprintf(`{"n":%d,"l":[%d,%d]}`, k, k, k+1)
+	src := "导入《@JSON》\n输入T\n以（解析JSON：T）#“n”（自增：5）\n以（解析JSON：T）#“l”#1（自减：3）\n输出（生成JSON：（解析JSON：T））"
+	o := zn.RunReal(src, map[string]r.Element{"T": value.NewString(doc)})
+	c.Eval(true)
+	c.Stat("i_parsed_numbers_changed_in_place", 1)
+	os, isText := o.Elem.(*value.String)
+	if o.Panic != "" || o.Err != nil || !isText || os == nil || os.GetValue() != doc {
+		kind := "mismatch"
+		if o.Panic != "" {
+			kind = "panic"
+		}
+		c.Fail(mc.Failure{Kind: kind, Bucket: "i:parsed-in-place", Case: mc.J(c19Case{Check: "i", Rank: int64(k), Variant: src}.withDoc(doc, "in-place", true)),
+			Expected: "解析JSON of the same text gives the document again: " + doc, Observed: c19ShowOutcome(o)})
+	}
+}
+
 // ------------------------------------------------------------------ (h) dictionaries that were copied and changed
 
 // (h): A is copied to B, B loses its first key and gains a new one; 生成JSON of A
@@ -1590,7 +1635,7 @@ func init() {
 			"Level B: structure with three scalar leaves (text \", 1e21, 空) plus empty list and empty dictionary, the node counts above level A's up to 5 (quick) / 6 (thorough). " +
 			"Per dictionary: (a) Python's strict reading of 生成JSON(d), (b) 解析JSON(生成JSON(d)) == d under zn.CanonElem with key order, parsed 43 times (+3 per document of (d): >= 64 parses of the same member order per dictionary), (c) the same through in-language 为, (d) 7-8 documents written by Python json.dumps (compact/indent=2 x ensure_ascii on/off, default separators, numbers as floats, whitespace-padded, \\/ escapes) parsed back, " +
 			"(e) for dictionaries of <= 3 nodes (level A) and <= 4 / <= 5 nodes (level B): every single-character deletion, every replacement by one of \" \\ { } [ ] , : 0 x, every one-character suffix and the doubled document, judged by Python (valid -> same value, invalid -> exception catchable by 拦截异常; through a program with a handler for level A <= 2 nodes quick / <= 3 nodes thorough, by the error class otherwise). " +
-			"(h) every dictionary of <= 4 nodes copied to a second name, the copy losing its first key and gaining a new one: 生成JSON of the original is unchanged and 生成JSON of the copy follows the copy. (g) every value of <= 3 nodes (level B) held twice AS ONE OBJECT by a dictionary of 4 shapes (two keys, twice in a list, once nested, list and key): 生成JSON gives the text of the unshared copy, directly and through a literal naming one input variable twice. " +
+			"(k) every hostile text (control, private-use, tag, non-characters, quotes, backslashes) as a member NAME - alone, beside another member, inside a list in a member - through (a)-(d). (i) for every integer -2..300: a number of a parsed document is changed in place without being bound, parsing the same text again gives the document. (h) every dictionary of <= 4 nodes copied to a second name, the copy losing its first key and gaining a new one: 生成JSON of the original is unchanged and 生成JSON of the copy follows the copy. (g) every value of <= 3 nodes (level B) held twice AS ONE OBJECT by a dictionary of 4 shapes (two keys, twice in a list, once nested, list and key): 生成JSON gives the text of the unshared copy, directly and through a literal naming one input variable twice. " +
 			"Level F: every dictionary of <= 4 (quick) / <= 5 (thorough) nodes over leaves {NaN, +Inf, -Inf, 1, é} that contains a non-finite number: 生成JSON must raise catchably. Non-trivial: more than a one-member object of a plain ASCII text / small integer / 真 假 空.",
 		Assumptions: []string{
 			"numbers are compared as doubles under ==: -0 and 0 are equal (Python reads -0 as the integer 0), 2^53+1 is compared after rounding to the nearest double; how a number is spelled (1e+21, 1.0, \\u escapes, HTML-safe \\u003c) is free as long as the document is RFC 8259-valid",
@@ -1686,6 +1731,42 @@ func c19Run(c *mc.Ctx) {
 			c.Bound(fmt.Sprintf("level_%s_dictionaries_of_%d_nodes", strings.SplitN(g.name, ":", 2)[0], n), fmt.Sprintf("complete: %d dictionaries, %s", total, what))
 		}
 	}
+	// (k) hostile member names through the whole pipeline; (i) parsed numbers changed in place
+	{
+		hk := c19HostileKeys()
+		kb := base
+		c.Describe = func(idx int64) json.RawMessage {
+			d := hk[idx-kb]
+			return mc.J(c19Case{Check: "all", Level: "K:hostile-member-names", Nodes: 2, Rank: idx - kb, Dict: d.desc(), Shown: zn.Display(d.toV())})
+		}
+		var chunk []*c19Item
+		for k, d := range hk {
+			if !c.Mine(base + int64(k)) {
+				continue
+			}
+			chunk = append(chunk, &c19Item{level: "K:hostile-member-names", nodes: 2, rank: int64(k), idx: base + int64(k), d: d, corr: false, e2e: false})
+			if len(chunk) >= 16 {
+				w.process(chunk)
+				chunk = chunk[:0]
+			}
+		}
+		if len(chunk) > 0 {
+			w.process(chunk)
+		}
+		base += int64(len(hk))
+		c.Bound("k_hostile_member_names", fmt.Sprintf("complete: %d dictionaries", len(hk)))
+		ib := base
+		c.Describe = func(idx int64) json.RawMessage { return mc.J(c19Case{Check: "i", Rank: idx - ib}) }
+		for k := -2; k <= 300; k++ {
+			if !c.Mine(base + int64(k+2)) {
+				continue
+			}
+			c.CaseIdx(base + int64(k+2))
+			w.checkParsedInPlace(k)
+		}
+		base += 303
+		c.Bound("i_parsed_numbers_changed_in_place", "complete: every integer -2..300")
+	}
 	// (g) shared sub-values
 	{
 		g := c19NewGen("B:three-leaves", c19LeavesSmall)
@@ -1775,6 +1856,8 @@ func c19Replay(c *mc.Ctx, raw json.RawMessage) {
 		w.checkCorrupt(it, c19Mut{doc, cs.Variant}, &rds[0], cs.E2E, c19ReplayRepeats)
 	case "top":
 		w.checkCorrupt(it, c19Mut{doc, cs.Variant}, &c19Read{OK: true, Top: "scalar"}, true, 1)
+	case "i":
+		w.checkParsedInPlace(int(cs.Rank))
 	case "h":
 		w.checkGo(it, 1, "a")
 		w.checkCopied(it)
